@@ -7,5 +7,7 @@ table = subprocess.run(['/venv/bin/python', '/verif/tools/mkmutants_md.py'], cap
 s = re.sub(r'<!-- MUTANTS-BEGIN -->.*?<!-- MUTANTS-END -->', lambda m: '<!-- MUTANTS-BEGIN -->\n' + table + '<!-- MUTANTS-END -->', s, flags=re.S)
 counts = subprocess.run(['/venv/bin/python', '/verif/tools/mkcounts_md.py'], capture_output=True, text=True, check=True).stdout
 s = re.sub(r'<!-- COUNTS-BEGIN -->.*?<!-- COUNTS-END -->', lambda m: '<!-- COUNTS-BEGIN -->\n' + counts + '<!-- COUNTS-END -->', s, flags=re.S)
+mx = subprocess.run(['/venv/bin/python', '/verif/tools/mkmatrix_md.py'], capture_output=True, text=True, check=True).stdout
+s = re.sub(r'<!-- MATRIX-BEGIN -->.*?<!-- MATRIX-END -->', lambda m: '<!-- MATRIX-BEGIN -->\n' + mx + '<!-- MATRIX-END -->', s, flags=re.S)
 p.write_text(s)
 print('refreshed; rows:', table.count('\n') - 2)
